@@ -1,7 +1,7 @@
 (* C10 — property theorems only. Each is closed by [exact] of a lemma proved in C10/Proofs.v. *)
 From Coq Require Import List Arith QArith.
 Import ListNotations.
-From AgileV Require Import Base.Prelude C09.Model C09.Proofs C10.Model C10.Proofs C10.ProofsResets.
+From AgileV Require Import Base.Prelude C09.Model C09.Proofs C10.Model C10.Proofs C10.ProofsResets C10.ProofsClear.
 Local Open Scope nat_scope.
 
 (* Vocabulary (C10/Model.v, C10/Proofs.v).  A stream xs is a list of raw vectorised transitions, one
@@ -252,6 +252,28 @@ Theorem column_indices_same_shape : forall B,
 Proof. exact shape_flat_and_col. Qed.
 Print Assumptions column_indices_same_shape.
 
+(* ---------- clear() of both buffers in the middle of a stream ----------
+   ReplayBuffer.clear() (inherited by MultiStepReplayBuffer) resets storage, cursor and size but not
+   the deque of raw transitions.  After any stream xs0, a clear of both buffers and any continuation
+   ys: the deque is the last n of xs0 ++ ys and both ring buffers hold (C09 invariant) exactly the
+   batches count n xs0, count n xs0 + 1, ... of the whole stream's histories. *)
+Theorem clear_then_continue : forall g n c E xs0 ys,
+  0 < E -> E <= c -> 1 <= n -> width E (xs0 ++ ys) ->
+  RunInvD g n c (count n xs0) (xs0 ++ ys)
+    (op_run (n_step_info g) n c (map OStep xs0 ++ OClear :: map OStep ys)).
+Proof. exact clear_then_continue_op. Qed.
+Print Assumptions clear_then_continue.
+
+(* ... and the j-th batch stored after the clear is window (count n xs0 + j) of the WHOLE stream (it may
+   start up to n-1 transitions before the clear; nstep_window_matches_spec describes it) next to the raw
+   transition it starts from in the 1-step buffer: still aligned *)
+Theorem clear_keeps_alignment : forall g n xs0 ys j,
+  1 <= n -> count n xs0 + j < count n (xs0 ++ ys) ->
+  nth j (skipn (count n xs0) (hist_n g n (xs0 ++ ys))) [] = n_step_info g (window n (xs0 ++ ys) (count n xs0 + j)) /\
+  nth j (skipn (count n xs0) (hist_1 n (xs0 ++ ys))) [] = nth (count n xs0 + j) (xs0 ++ ys) [].
+Proof. exact clear_keeps_alignment_lemma. Qed.
+Print Assumptions clear_keeps_alignment.
+
 (* ---------- non-vacuity ---------- *)
 (* two environments, n = 3, capacity 4 (both buffers wrap): env 1 ends at step 1, env 0 at step 3 *)
 Definition ex_stream : list vtr :=
@@ -286,4 +308,19 @@ Proof.
     try (cbn; auto with arith); [repeat constructor|].
   exists r. split; [exact H1|]. split; [exact H2|]. split; [rewrite H3; vm_compute; reflexivity|].
   split; [exact H4|exact H5].
+Qed.
+
+(* non-vacuity for clear(): after 4 transitions (2 windows stored), clear, 1 more transition: one row,
+   it is window 2 = steps 2..4 (two of them from before the clear), aligned with raw transition 2 *)
+Example clear_instance :
+  let s := op_run (n_step_info (1#2)) 3 4 (map OStep (firstn 4 ex_stream) ++ OClear :: map OStep (skipn 4 ex_stream)) in
+  size (nbuf s) = 2 /\ size (mem s) = 2 /\
+  map (option_map obac) (store (nbuf s)) = [Some (5, 5); Some (6, 6); None; None] /\
+  map (option_map obac) (store (mem s)) = [Some (5, 5); Some (6, 6); None; None] /\
+  RunInvD (1#2) 3 4 (count 3 (firstn 4 ex_stream)) ex_stream s.
+Proof.
+  cbv zeta. split; [vm_compute; reflexivity|]. split; [vm_compute; reflexivity|].
+  split; [vm_compute; reflexivity|]. split; [vm_compute; reflexivity|].
+  change ex_stream with (firstn 4 ex_stream ++ skipn 4 ex_stream) at 2.
+  apply (clear_then_continue (1#2) 3 4 2); try (cbn; auto with arith). repeat constructor.
 Qed.
